@@ -328,7 +328,8 @@ def c20_g4(repo, res, rule="G4"):
         (G, "BaseGeo.style", True, dict(self=O({"A:self"}), val=O({"P:val"})), False),
         (C, "BaseCollection.set_children_styles", False, dict(self=O({"A:self"}), arg=O({"P:arg"}), opacity=O({"P:opacity"})), False),
         (D, "MagicProperties.update", False, dict(self=O({"A:self"}), arg=O({"P:arg"}), color=O({"P:color"})), False),
-        (S, "get_style", False, dict(obj=O({"A:obj"}), default_settings=O({"A:default_settings"}), style=O({"P:style"}), style_color=O({"P:style_color"})), False),
+        # show() linearises nested `style=` dicts before they reach get_style, so only flat style_* keywords arrive here
+        (S, "get_style", False, dict(obj=O({"A:obj"}), default_settings=O({"A:default_settings"}), style_color=O({"P:style_color"})), False),
     ]
     for modname, qual, setter, params, check_return in items:
         node = find_ast(modname, qual, setter)
